@@ -244,7 +244,27 @@ func Monitor(spec *Spec, tr *Trace) []Finding {
 					}
 				}
 			}
-			if len(failed) > 0 {
+			nSkippedEntries := 0
+			for _, ee := range tr.ErrEntries[gi] {
+				if ee.IsSkipped {
+					nSkippedEntries++
+				}
+			}
+			if nSkippedEntries > 0 && len(reported) == 0 {
+				// the entries do not name the task in the form this monitor knows: compare counts instead of identities
+				need := 0
+				for t := range neverEntered {
+					if !spDependents[t] {
+						need++
+					}
+				}
+				if len(failed) > 0 && nSkippedEntries < need {
+					add("C14", "%d task(s) were never started (not counting dependents of ErrorSkipParents tasks) but only %d ErrorTaskSkipped entries are reported", need, nSkippedEntries)
+				}
+				if nSkippedEntries > len(neverEntered) {
+					add("C14", "%d ErrorTaskSkipped entries for %d tasks that were never started", nSkippedEntries, len(neverEntered))
+				}
+			} else if len(failed) > 0 {
 				for t := range neverEntered {
 					if spDependents[t] {
 						continue // both clauses apply: accepted either way
